@@ -131,7 +131,7 @@ func memoryGrid() []*Scenario {
 		for _, e := range exps {
 			for _, grow := range []uint64{0, 1, 2} {
 				for _, imin := range imins {
-					a := &Desc{Name: "A", Mem: &LMem{Min: e.min, Max: e.max}, Exports: []Exp{{"mem", 'm', 0}}}
+					a := &Desc{Name: "A", Mem: &LMem{Min: e.min, Max: e.max, Shared: e.max != nil && (int(imin)+int(grow))%2 == 1}, Exports: []Exp{{"mem", 'm', 0}}}
 					sc := &Scenario{Tag: "grid-memory", Limit: limit, Ops: []Op{instOp(a)}}
 					if grow > 0 {
 						sc.Ops = append(sc.Ops, Op{Kind: "mgrow", Inst: 0, V: grow, Host: grow == 2})
@@ -142,6 +142,11 @@ func memoryGrid() []*Scenario {
 						}
 						b := &Desc{Name: fmt.Sprintf("B%d", j), Imports: []Imp{{Mod: "A", Name: "mem", Kind: 'm', Min: imin, Max: imax}}}
 						sc.Ops = append(sc.Ops, instOp(b))
+						if imax != nil {
+							// the same import declared `shared` (threads): the flags of the two memory types must agree
+							bs := &Desc{Name: fmt.Sprintf("S%d", j), Imports: []Imp{{Mod: "A", Name: "mem", Kind: 'm', Min: imin, Max: imax, Shared: true}}}
+							sc.Ops = append(sc.Ops, instOp(bs))
+						}
 						if j%3 == 0 {
 							sc.Ops = append(sc.Ops, Op{Kind: "mstore", Inst: -1, Slot: uint32(j), V: uint64(0x80 + j), Host: j%2 == 0})
 						}
